@@ -219,7 +219,7 @@ func verifC11Auth() {
 	replies = append(replies, verifAuthReply{fail: refetchFails, state: cur})
 	queries := verifAuthd(o, replies)
 	n := verifShellNSQD(o)
-	verifrt.Stub("(*github.com/nsqio/nsq/nsqd.NSQD).Notify", verifNotifyNop)
+	verifrt.StubNative("(*github.com/nsqio/nsq/nsqd.NSQD).Notify", verifNotifyNop)
 	cl, _ := verifClient(n, 1, append(verifBE32(5), append(verifBE32(1), append(verifBE32(1), 'x')...)...))
 	if authed {
 		s := &auth.State{TTL: 60, Authorizations: []auth.Authorization{cached}}
